@@ -172,6 +172,15 @@ def xml2dict(string):
     return _recurse(root)
 
 
+def as_list(value):
+    """Elements that may be repeated in XML are returned as a list by xml2dict only when there
+    are several of them. This gives a list in all cases.
+    """
+    if value is None:
+        return []
+    return value if isinstance(value, list) else [value]
+
+
 def kvn2dict(string):
     """Convert KVN (Key-Value Notation) to a dictionnary for easy reuse
 
